@@ -164,6 +164,14 @@ def run(chk, repo, pid):
             found.append(('visited break', b_.lineno, f'for {unparse(L_.target)} in {unparse(L_.iter)[:40]}: if .. in {sn_}: break',
                           f'the first neighbour that was already visited ends the loop: the neighbours after it are never '
                           f'examined (continue was meant)'))
+        for L_, c_ in lints.position_by_equality(f.node):
+            found.append(('position by equality', c_.lineno, f'for {L_.target.id} in {unparse(L_.iter)[:40]}: .. {unparse(c_)[:50]}',
+                          f'the backward scan stands at `{L_.target.id}`, but its position is looked up by equality: with two equal '
+                          f'elements the position of the FIRST one is returned, not of the one reached'))
+        for rs_, rd_, v_, at_ in lints.reads_reset_attribute(f.node):
+            found.append(('reset attribute read back', rd_.lineno, f'{unparse(rs_)[:60]} ... {v_}.{at_}',
+                          f'`{v_}.{at_}` is read after `{v_}` was re-bound to the compartment whose {at_} was just reset to a '
+                          f'constant: the constant is transferred, the original {at_} is lost'))
         for mut_, use_, nm_ in lints.stale_compartment_handles(f.node):
             found.append(('stale compartment', use_.line, f'{mut_.text()[:50]} ... {use_.text()[:50]}',
                           f'`{nm_}` was replaced in the builder by the first call (which returns the new compartment); the second '
@@ -296,4 +304,4 @@ def run(chk, repo, pid):
                 chk.violation(Y0, f.module.rel, f.qualname, f'loop-carried flag `{v}`',
                               'tested and cleared in an inner loop, initialised outside the outer loop', line=M.lineno,
                               advisory=True)
-    chk.instance(Y0, f'{nfun} functions of {len(mods)} anchored modules scanned for 24 defect shapes', n=nfun)
+    chk.instance(Y0, f'{nfun} functions of {len(mods)} anchored modules scanned for 26 defect shapes', n=nfun)
